@@ -2999,6 +2999,11 @@ class Exec:
                 s2.ghost['with_block'] = 'raised'
                 out.append((s, VNone()))
                 out.append((s2, Raise('BlockException', n.lineno)))
+                # ... or the block is left through a BaseException that is NOT an Exception (KeyboardInterrupt, SystemExit, the GeneratorExit
+                # of a closed generator): `except Exception` does not see it, `finally` does
+                s3 = s.clone()
+                s3.ghost['with_block'] = 'raised-base'
+                out.append((s3, Raise('BlockBaseException', n.lineno)))
             return out
         if self.yield_encoder is None or ctx.get('gen') is not None:
             cell = ctx.get('gen')
@@ -3408,7 +3413,9 @@ class Exec:
                  'ValueError': ['Exception'], 'TypeError': ['Exception'], 'ZeroDivisionError': ['ArithmeticError', 'Exception'],
                  'OverflowError': ['ArithmeticError', 'Exception'], 'AttributeError': ['Exception'],
                  'NotImplementedError': ['RuntimeError', 'Exception'], 'PGPError': ['Exception'],
-                 'PGPDecryptionError': ['Exception'], 'InvalidSignature': ['Exception'], 'UnicodeDecodeError': ['ValueError', 'Exception']}
+                 'PGPDecryptionError': ['Exception'], 'InvalidSignature': ['Exception'], 'UnicodeDecodeError': ['ValueError', 'Exception'],
+                 'BlockBaseException': ['BaseException'], 'KeyboardInterrupt': ['BaseException'], 'SystemExit': ['BaseException'],
+                 'GeneratorExit': ['BaseException']}
 
     def exc_matches(self, exc, handler_type):
         exc = exc.split(':')[0].split('.')[-1]
